@@ -245,7 +245,7 @@ def _basis_for_sweep(rng, i):
 
 def _gen_basis_cases(rng, tier):
     specs = []
-    nb = 20 if tier == 'quick' else 200
+    nb = 40 if tier == 'quick' else 200
     for bi in range(nb):
         b = _basis_for_sweep(rng, bi)
         tol = TOLS[bi % len(TOLS)]
@@ -308,7 +308,7 @@ def _vd_matches(rows, key, rtol, atol):
 
 def _gen_vertexdict(rng, tier):
     specs = []
-    nh = 60 if tier == 'quick' else 800
+    nh = 100 if tier == 'quick' else 800
     for hi_ in range(nh):
         atol = TOLS[hi_ % len(TOLS)]
         rtol = 0.0 if hi_ % 3 != 2 else rng.choice([1e-5, 1e-3])
@@ -392,7 +392,7 @@ def _insert_raise(block, path, idx):
 def _gen_nests(rng, tier):
     specs = []
     init = [[k, float(i + 1) / 64.0] for i, k in enumerate(NAMES)]
-    nt = 10 if tier == 'quick' else 60
+    nt = 16 if tier == 'quick' else 60
     # the two minimal shapes first
     fixed = [['seq', ['with', [['knot_tolerance', 0.5]], ['seq', ['noop']]]],
              ['seq', ['with', [['knot_tolerance', 0.5]], ['seq', ['with', [['unlimited', 3.0]], ['seq', ['noop']]]]]]]
@@ -768,8 +768,9 @@ def _enc_block(b):
 
 def _prog():
     info = _GEN['info']
-    if info is None:   # e.g. a tool importing this module without running regenerate
-        pkg = os.path.join(implmod.REPO, 'splipy')
+    if info is None:   # e.g. a tool importing this module without running regenerate: same overlay as the harness
+        sp, _ = implmod.load()
+        pkg = os.path.dirname(os.path.abspath(sp.__file__))
         info = {'prog': state_translate.translate_state(open(os.path.join(pkg, 'state.py')).read())['prog']}
     return state_translate.prog_from_json(info['prog'])
 
